@@ -24,6 +24,7 @@ type Profile struct {
 	FixedRelBias int    // percent chance per relation component of a new filter to get a fixed target (default: about 30)
 	Burst        bool   // open bursts of queries up to the limit of 64
 	BigBatches   bool   // batches of up to 90 entities (tables beyond 64 rows)
+	Bulk         int    // percentage of cases that start with a bulk op (hundreds of archetypes)
 	FinalOp      string // extra final operation ("roundtrip")
 	ForceReset   bool   // one Reset is forced in the middle of the case; the first prefix observer listens to OnRemoveRelations
 	ObsPrefix    int    // observers created (and mostly registered) at the start of a case
@@ -31,14 +32,15 @@ type Profile struct {
 
 // Gen draws operations given the model state.
 type Gen struct {
-	P       *Profile
-	It      *Interp
-	qSeq    int
-	queue   []*Op  // ops of a multi-step scenario still to be emitted
-	hot     uint16 // components preferred by this case, so that entities share archetypes
-	N       int    // planned number of ops
-	resetAt int
-	burst   int
+	P         *Profile
+	It        *Interp
+	qSeq      int
+	queue     []*Op // ops of a multi-step scenario still to be emitted
+	bulkDrawn bool
+	hot       uint16 // components preferred by this case, so that entities share archetypes
+	N         int    // planned number of ops
+	resetAt   int
+	burst     int
 }
 
 var defaultCaps = []int{1, 1, 2, 3, 4, 8, 16, 64}
@@ -171,7 +173,13 @@ func (g *Gen) Next(t *rapid.T) *Op {
 		}
 		g.queue = nil
 	}
-	if g.P.ObsPrefix > 0 && g.It.Step < g.P.ObsPrefix && len(m.Obs) < 8 {
+	if g.P.Bulk > 0 && g.It.Step == 0 && !g.bulkDrawn {
+		g.bulkDrawn = true
+		if v := rapid.IntRange(0, 99).Draw(t, "bulk"); v >= 40 && v < 40+g.P.Bulk { // (rapid favours the ends of a range)
+			return &Op{K: "bulk", N: rapid.SampledFrom([]int{100, 127, 128, 129, 140, 255, 256, 257, 300}).Draw(t, "bulkArchetypes"), Mode: rapid.IntRange(0, 999).Draw(t, "bulkSeed")}
+		}
+	}
+	if g.P.ObsPrefix > 0 && g.It.Step < g.P.ObsPrefix+g.bulkShift() && len(m.Obs) < 8 {
 		op := g.genObs(t)
 		if g.P.ForceReset && len(m.Obs) == 0 {
 			op.OS = &ObsSpec{Inst: -1, Ev: EvRemoveRels}
@@ -270,6 +278,18 @@ func (g *Gen) Next(t *rapid.T) *Op {
 		op = &Op{K: "gc", Mode: rapid.IntRange(0, 1).Draw(t, "gcMode")}
 	case "dumpLoad":
 		op = &Op{K: "dumpLoad", Mode: rapid.IntRange(0, 1).Draw(t, "dumpFresh")}
+		// the observers lose their registration (Mode 1: the objects move to a new world): register some of them again
+		var reg []int
+		for j, o := range m.Obs {
+			if o.Registered {
+				reg = append(reg, j)
+			}
+		}
+		if len(reg) > 0 && rapid.Bool().Draw(t, "reRegisterObservers") {
+			for _, j := range reg[:rapid.IntRange(1, min(3, len(reg))).Draw(t, "reRegisterN")] {
+				g.queue = append(g.queue, &Op{K: "obsReg", Q: j, Mode: 1})
+			}
+		}
 	case "qOpen":
 		op = g.genQuery(t)
 		if rapid.Bool().Draw(t, "sameFilterAgain") {
@@ -1584,4 +1604,12 @@ func (g *Gen) fixedRel(t *rapid.T) bool {
 		p = 30
 	}
 	return rapid.IntRange(0, 99).Draw(t, "fixedRel") < p
+}
+
+// bulkShift is 1 if the case started with a bulk op (the observer prefix then starts one step later).
+func (g *Gen) bulkShift() int {
+	if len(g.It.M.Ents) > 60 {
+		return 1
+	}
+	return 0
 }
